@@ -40,6 +40,8 @@ impl MT299 {
         // Parse mandatory Field 79
         let field_79 = parser.parse_field::<Field79>("79")?;
 
+        crate::parser::utils::verify_parser_complete(&parser)?;
+
         Ok(MT299 {
             field_20,
             field_21,
